@@ -60,17 +60,19 @@ AJump == [simple |-> {Y(Lit0)}, inits |-> {None}, posts |-> {None, Y(Lit0)}, con
 \* value whose receiver variable is reassigned, wrappers around a package function, a generic instance,
 \* a builtin and a conversion
 CV == [k |-> "cv", id |-> 0]
-AOpt == [simple |-> {Eff, IncA, [k |-> "setcv"], [k |-> "sets"], Y(VarA), Y([k |-> "gets"]), Y([k |-> "pk", n |-> "a"]),
-                     Y([k |-> "idg", n |-> "a"]), Y([k |-> "ln"]), Y([k |-> "cnv", n |-> "a"])},
+\* (the callee kinds that cannot be reassigned -- package function, generic instance, builtin, conversion --
+\*  only need to occur: they live in the smaller families optx / byx)
+AOpt == [simple |-> {Eff, [k |-> "setcv"], [k |-> "sets"], [k |-> "setp"], Y(VarA), Y([k |-> "gets"]), Y([k |-> "pv", n |-> "a"])},
          inits |-> {None}, posts |-> {None, PAssign, Y([k |-> "gets"])}, conds |-> {T0, CV},
          ifinits |-> {None}, kinds |-> {"if", "for"}, jumps |-> {"break", "continue"}, ranges |-> {}]
 \* bystanders (C13): plain functions of a processed file -- the same closures, observed by effects instead of yields
 EffX(v) == [k |-> "effx", id |-> 0, v |-> v]
-ABy == [AOpt EXCEPT !.simple = {Eff, IncA, [k |-> "setcv"], [k |-> "sets"], EffX([k |-> "gets"]), EffX([k |-> "pk", n |-> "a"]),
-                                EffX([k |-> "idg", n |-> "a"]), EffX([k |-> "ln"]), EffX([k |-> "cnv", n |-> "a"])},
+ABy == [AOpt EXCEPT !.simple = {Eff, [k |-> "setcv"], [k |-> "sets"], [k |-> "setp"], EffX([k |-> "gets"]), EffX([k |-> "pv", n |-> "a"])},
                     !.posts = {None, PAssign}]
+AOptX == [AOpt EXCEPT !.simple = {IncA, [k |-> "unsup", u |-> "clo-loopvar", id |-> 0], Y([k |-> "pk", n |-> "a"]), Y([k |-> "idg", n |-> "a"]), Y([k |-> "ln"]), Y([k |-> "cnv", n |-> "a"]), Y([k |-> "gets"])}]
+AByX == [ABy EXCEPT !.simple = {IncA, EffX([k |-> "pk", n |-> "a"]), EffX([k |-> "idg", n |-> "a"]), EffX([k |-> "ln"]), EffX([k |-> "cnv", n |-> "a"]), EffX([k |-> "gets"])}]
 \* constructs outside the supported subset (C12): a small control alphabet plus exactly one such construct
-UKinds == {"lbreak", "lcont", "goto", "select", "defer", "fallyield", "ifinit", "rparr", "rfunc", "rtparam",
+UKinds == {"lbreak", "lcont", "goto", "select", "selbrk", "defer", "fallyield", "ifinit", "rparr", "rfunc", "rtparam",
            "clo-lbreak", "clo-goto", "clo-select", "clo-defer", "clo-rfunc", "clo-rparr", "clo-fall"}
 AUnsup == [simple |-> {Eff, Y(VarA)} \cup {[k |-> "unsup", u |-> u, id |-> 0] : u \in UKinds},
            inits |-> {None}, posts |-> {None, Y(VarA)}, conds |-> {T0}, ifinits |-> {None},
@@ -82,6 +84,12 @@ CountUS(s) == (IF s.k = "unsup" THEN 1 ELSE 0)
                   [] s.k \in {"block", "for"} -> CountU(s.body)
                   [] OTHER -> 0
 CountU(b) == IF b = <<>> THEN 0 ELSE CountUS(Head(b)) + CountU(Tail(b))
+\* yields of freshly allocated objects (generators of element type *box): &box{v: 1} and &box{v: a} must be
+\* evaluated at every yield -- a literal-looking composite is not a literal (C07: Delay elision, C02)
+Fresh(e) == [k |-> "fresh", e |-> e]
+ABox == [simple |-> {Eff, IncA, Y(Fresh([k |-> "lit", v |-> 1])), Y(Fresh(VarA))},
+         inits |-> {None}, posts |-> {None, Y(Fresh([k |-> "lit", v |-> 1]))}, conds |-> {T0},
+         ifinits |-> {None}, kinds |-> {"if", "for", "block"}, jumps |-> {"break", "continue"}, ranges |-> {}]
 ACtlX == [ACtl EXCEPT !.kinds = @ \cup {"switchd", "tswitch", "notag"}]
 \* range loops inside generators (C04): every collection kind x variable forms x body shapes
 RangeHdr(kind, xf, kf, vf) == [k |-> "range", id |-> 0, kind |-> kind, xf |-> xf, kf |-> kf, vf |-> vf, wrap |-> "none", body |-> <<>>]
@@ -99,7 +107,7 @@ ARange == [simple |-> {Y(VarK), Y(VarV), Mut("sset", 2), Mut("sapp", 0), Mut("st
            inits |-> {None}, posts |-> {None}, conds |-> {T0}, ifinits |-> {None},
            kinds |-> {"range", "if"}, jumps |-> {"break", "continue"}, ranges |-> Ranges]
 ARangeX == [ARange EXCEPT !.simple = @ \cup {Mut("nset", 0), Mut("strset", 0), Mut("sset", 0), Mut("aset", 0)}]
-A == CASE Family = "range" -> ARange [] Family = "rangex" -> ARangeX [] Family = "ctl" -> ACtl [] Family = "scope" -> AScope [] Family = "yf" -> AYf [] Family = "yfl" -> AYfL [] Family = "panic" -> APanic [] Family = "ctlx" -> ACtlX [] Family = "eff" -> AEff [] Family = "expr" -> AExpr [] Family = "jump" -> AJump [] Family = "opt" -> AOpt [] Family = "by" -> ABy [] Family = "unsup" -> AUnsup
+A == CASE Family = "range" -> ARange [] Family = "rangex" -> ARangeX [] Family = "ctl" -> ACtl [] Family = "scope" -> AScope [] Family = "yf" -> AYf [] Family = "yfl" -> AYfL [] Family = "panic" -> APanic [] Family = "ctlx" -> ACtlX [] Family = "eff" -> AEff [] Family = "expr" -> AExpr [] Family = "jump" -> AJump [] Family = "opt" -> AOpt [] Family = "by" -> ABy [] Family = "optx" -> AOptX [] Family = "byx" -> AByX [] Family = "unsup" -> AUnsup [] Family = "box" -> ABox
 
 \* Go scoping: `a := ...` at most once per block and never in the function's top block
 \* (a is a parameter there: "no new variables on left side of :=")
@@ -126,7 +134,7 @@ HasBoomS(s) == (s.k = "yield" /\ s.v.k = "b1")
 HasBoom(b) == \E j \in 1..Len(b) : HasBoomS(b[j])
 \* a function without a Yield is not a generator for the tool (it would run eagerly: C13's business)
 IsRangeFam == Family \in {"range", "rangex"}
-Member(p) == /\ (IF Family = "by" THEN ~HasY(p) /\ HasK(p, "effx") ELSE HasY(p)) /\ (Family = "scope" => ScopeOK(p, 0)) /\ (Family = "panic" => (HasK(p, "panic") \/ HasBoom(p)))
+Member(p) == /\ (IF Family \in {"by", "byx"} THEN ~HasY(p) /\ HasK(p, "effx") ELSE HasY(p)) /\ (Family = "scope" => ScopeOK(p, 0)) /\ (Family = "panic" => (HasK(p, "panic") \/ HasBoom(p)))
              /\ (IsRangeFam => HasK(p, "range"))
              /\ (Family = "unsup" => CountU(p) = 1)
 \* range family: every program ends with an observation of the function-level kk, vv and a final yield
